@@ -6,7 +6,7 @@
 //verif:assume faults: a fixed tree (a: 70 bytes over two leaves, d/b: 1 byte, e: empty; 2 entries per index file) uploaded or downloaded with one transient fault at a solver-chosen store call (source / metadata / blob / destination store, reads and listings included)
 //verif:cover VerifC04Faults upload-faulted download-faulted operation-failed operation-survived-the-fault
 //verif:assume cut transfers: the reader of source file a (upload) or of one blob of file a (download) fails with io.ErrUnexpectedEOF after a solver-chosen number of bytes
-//verif:cover VerifC04CutTransfers source-cut blob-cut
+//verif:cover VerifC04CutTransfers source-cut blob-cut metadata-cut
 //verif:cover VerifC04Select missing-skipped single-file filtered repeated-key
 //verif:cover VerifC04UploadDownload decoy-skipped nested-datamon-kept two-index-files empty-bundle source-read-fault-reported unreadable-source-file-skipped duplicated-content
 package core
@@ -373,7 +373,23 @@ func VerifC04CutTransfers() {
 		ConcurrentFileUploads(1))
 	up.BundleDescriptor.LeafSize = 64
 	cut := vInt("cutAfter", 0, 69)
-	if vChoose("cutDuring", 2) == 0 {
+	during := vChoose("cutDuring", 3)
+	if during == 2 {
+		// the transfer of the bundle descriptor or of a file list is cut during a download
+		vCover("metadata-cut")
+		vAssert(implUpload(ctx, up, 2, nil) == nil, "upload")
+		victim := model.GetArchivePathToBundle("r", up.BundleID)
+		if vChoose("metadataObject", 2) == 1 {
+			victim = model.GetArchivePathToBundleFileList("r", up.BundleID, 0)
+		}
+		vAssume(cut < len(meta.data[victim]))
+		meta.cutAfter = map[string]int{victim: cut}
+		dst := newVStore("dst")
+		down := NewBundle(Repo("r"), ContextStores(stores), ConsumableStore(dst), BundleID(up.BundleID), Logger(zap.NewNop()), ConcurrentFileDownloads(1), ConcurrentFilelistDownloads(1))
+		vAssert(implPublish(ctx, down, 2, nil) != nil, "download-over-a-cut-metadata-transfer-fails")
+		return
+	}
+	if during == 0 {
 		vCover("source-cut")
 		src.cutAfter = map[string]int{"a": cut}
 		err := implUpload(ctx, up, 2, nil)
